@@ -9,7 +9,7 @@ from mpfcases import V
 LEVEL = "proof"
 FNS = ["mpi_add", "mpi_sub", "mpi_mul", "mpi_div", "mpi_neg", "mpi_pos", "mpi_abs", "mpi_square", "mpi_sqrt",
        "mpi_pow_int", "mpi_delta", "mpi_mid"]
-TAGS = {"CONTAIN"}
+TAGS = {"CONTAIN", "ROUND"}
 
 
 def api_level(rep, tier_, rng):
